@@ -122,6 +122,28 @@ func main() {
 		workerMain()
 	case "setup":
 		os.Exit(setupMain())
+	case "ctx":
+		var tt []CTok
+		for _, f := range strings.Fields(os.Args[2]) {
+			if f == ")" {
+				tt = append(tt, CTok{Close: true})
+				continue
+			}
+			pp := strings.Split(f, ":")
+			var t CTok
+			fmt.Sscanf(pp[0], "%d", &t.Kind)
+			t.HasPath = strings.Contains(pp[1], "p")
+			t.Explicit = strings.Contains(pp[1], "x")
+			t.Annot = strings.Contains(pp[1], "a")
+			fmt.Sscanf(pp[2], "%d", &t.Name)
+			tt = append(tt, t)
+		}
+		content, _ := renderCToks(tt)
+		fmt.Println(string(content))
+		r := runCtx(tt)
+		fmt.Printf("scan: %s\npaste: %s\n", r.Scan, r.Paste)
+		res := RunProject(SingleFile(content), false)
+		fmt.Println(res.Verdict())
 	case "lex":
 		b, _ := os.ReadFile(os.Args[2])
 		lexs, tail := ScanAll(b)
